@@ -995,6 +995,19 @@ func execSegment(sc *ck.Script, i int, p *prepared) bool {
 	run.Count("earlier-crashes")
 	p.sim = observed(p.base, sc)
 	p.sim.noAuto, p.sim.gcUniv = sc.NoAutoSave, gcUniverse(sc)
+	if p.sim.gcUniv {
+		// Store.delete enters a dangling MANIFEST successor by digest when the resolver does not
+		// hold it (content/oci/oci.go delete()).  That needs a manifest that is in the graph
+		// but not in index.json: here only the leftover of a Push killed between the blob rename
+		// and the index rename, later reached through a referrer (4 <- 5 <- 6).  The model has
+		// no successor relation (C09's subject), so such scripts are not continued.
+		for _, id := range []int{4, 5} {
+			if p.sim.blobs[id] && !p.sim.entries[id] {
+				run.Count("script-abandoned-unindexed-manifest-with-referrer")
+				return false
+			}
+		}
+	}
 	return judged // the model cannot follow a cascade whose order it was not told
 }
 
